@@ -327,10 +327,11 @@ def expected_items(schema, spec, rec):
             item_comp = item_comp.item_type
             return [x for it in lex.split() for x in one(res['item'], item_comp, it)]
         # union: the first member type, in order, for which the text is valid (XSD Part 2, 2.5.1.3)
-        for ref, m in zip(res['refs'], res['members']):
+        for i, (ref, m) in enumerate(zip(res['refs'], res['members'])):
             mc = schema.maps.types[_typeref_qname(spec, ref)]
             if mc.is_valid(lex, namespaces=ns):
-                return [(b, c, 'union-member/' + k) for b, c, k in one(m, mc, lex)]
+                pos = 'first-member/' if i == 0 else 'later-member/'      # see union_slot()
+                return [(b, c, pos + k) for b, c, k in one(m, mc, lex)]
         raise AssertionError(f'no union member accepts {lex!r}')
 
     return one(res, comp, lexical)
@@ -495,6 +496,19 @@ def judge_nodes(case, rec: Recorder | None = None) -> list[Disc]:
     return discs
 
 
+def union_slot(sres, exp) -> str:
+    """container slot of a bucket; unions whose text is rejected by an earlier member (the valid member is not the
+    first one) are a class of their own (known finding: members are tried by python constructor only)"""
+    if sres['variety'] == 'union' and exp and exp[0][2].startswith('later-member/'):
+        return 'union-later'
+    return sres['variety']
+
+
+def _src(r) -> str:
+    """where the lexical value comes from, as a bucket component (text and value constraints behave alike)"""
+    return r['source'] if r['source'] in ('nil', 'empty') else 'value'
+
+
 def short_type(r) -> str:
     res = G.simple_of(r['res'])
     if res is None:
@@ -523,14 +537,15 @@ def _judge_node(ev, b, spec, schema, r, pidx, xsd) -> list[Disc]:
         try:
             got = ev.results(b.tree, f'data({r["xpath"]})', pidx, True)
         except Exception as e:
-            discs.append(Disc(esc_bucket('typed', e) + f'/{tc}/{r["source"]}', [c for _, c, _ in exp], repr(e), where))
+            discs.append(Disc(esc_bucket(f'typed/{union_slot(sres, exp)}', e) + f'/{_src(r)}/{tc}', [c for _, c, _ in exp],
+                              repr(e), where))
             got = None
         if got is not None:
             if not isinstance(got, list):
                 got = [got]
-            container = sres['variety']
+            container = union_slot(sres, exp)
             if len(got) != len(exp):
-                discs.append(Disc(f'C20/typed/count/{tc}/{r["source"]}', [c for _, c, _ in exp],
+                discs.append(Disc(f'C20/typed/{container}/count/{_src(r)}/{tc}', [c for _, c, _ in exp],
                                   [repr(x) for x in got], where))
             else:
                 for (bi, cv, k), g in zip(exp, got):
@@ -538,37 +553,49 @@ def _judge_node(ev, b, spec, schema, r, pidx, xsd) -> list[Disc]:
                     ok_cls = isinstance(g, cls) and not (cls is not bool and isinstance(g, bool)) \
                         and not isinstance(g, UntypedAtomic)
                     if not ok_cls:
-                        discs.append(Disc(f'C20/typed/class/{k}/{container}/{r["source"]}',
+                        discs.append(Disc(f'C20/typed/{container}/class/{k}',
                                           f'instance of {cls.__name__} (xs:{bi})', f'{type(g).__name__} {g!r}', where))
                     try:
                         gc = canon_py(g)
                     except Exception as e:
                         gc = f'<{type(e).__name__}>'
                     if gc != cv:
-                        discs.append(Disc(f'C20/typed/value/{k}/{container}/{r["source"]}/{G.builtin_primitive(bi)}',
+                        discs.append(Disc(f'C20/typed/{container}/value/{k}/{G.builtin_primitive(bi)}',
                                           cv, gc, where))
 
     # ---- (3) instance of element(*, T) / attribute(*, T) ------------------------------------------------
     tests: list = []     # (sequence type text, expected bool, tag)
     chain = list(res['chain']) if res['variety'] != 'eo' else []
-    if sres is not None and res['variety'] == 'sc':
-        # a complex type with simple content: its own named chain only (content type chain is not a base of it)
-        pass
-    if sres is not None and sres['variety'] == 'atomic' and res['variety'] != 'sc':
-        pass
     hsel = h64([r['xpath'], r['lexical'], chain])
+
+    names = G.types_by_name(spec)
+
+    def tagged(t, tag):
+        if not t.startswith('xs:') and not spec['tns']:
+            return tag + '@unprefixed-type'
+        if not t.startswith('xs:') and names[t][0] in ('sc', 'scext'):
+            return tag + '@complex-type'
+        if t == 'xs:NMTOKENS':
+            return tag + '@builtin-list-type'
+        if not t.startswith('xs:'):
+            rt = G.resolve(spec, t)
+            if rt['variety'] == 'atomic' and rt['builtin'] == 'QName':
+                return tag + '@qname-derived-type'
+        return tag
+
     named = [t for t in chain if t not in ('xs:anyAtomicType', 'xs:anySimpleType')]
     if named:
-        tests.append((named[0], True, 'declared'))
+        tests.append((named[0], True, tagged(named[0], 'nearest-named')))
         if len(named) > 1:
-            tests.append((named[1 + hsel % (len(named) - 1)], True, 'base'))
-    if res['variety'] != 'eo' and res['variety'] != 'sc':
+            t = named[1 + hsel % (len(named) - 1)]
+            tests.append((t, True, tagged(t, 'base')))
+    if res['variety'] != 'eo':
         if hsel % 4 == 0:
             tests.append(('xs:anySimpleType', True, 'anySimpleType'))
         if sres['variety'] == 'atomic' and hsel % 4 == 1:
             tests.append(('xs:anyAtomicType', True, 'anyAtomicType'))
-    if r['kind'] == 'elem' and hsel % 5 == 0:
-        tests.append(('xs:anyType', True, 'anyType'))
+    if r['kind'] == 'elem' and (hsel % 5 == 0 or res['variety'] == 'eo'):
+        tests.append(('xs:anyType', True, 'ur-type@anyType'))
     if sres is not None and exp is not None:
         prims = {G.builtin_primitive(bi) for bi, _, _ in exp}
         if sres['variety'] == 'union':
@@ -589,7 +616,8 @@ def _judge_node(ev, b, spec, schema, r, pidx, xsd) -> list[Disc]:
                     exprs.append((f'{r["xpath"]} instance of {st_text(t, True)}', True, tag + '/nilled-optional'))
             else:
                 exprs.append((f'{r["xpath"]} instance of {st_text(t)}', want, tag))
-        _run_boolean_batch(ev, b, exprs, pidx, discs, 'instance-of', tc, where)
+        _run_boolean_batch(ev, b, exprs, pidx, discs, 'instance-of', sres['variety'] if sres is not None else 'element-only',
+                           tc, where)
 
     # ---- (4) arithmetic / comparison use the typed value ---------------------------------------------------
     if sres is not None and exp and not r['nil']:
@@ -601,6 +629,12 @@ def _judge_node(ev, b, spec, schema, r, pidx, xsd) -> list[Disc]:
             if lit is not None and cv != 'NaN':
                 exprs.append((f'{x} = {lit}', True, 'general-eq'))
             exprs.append((f'count(data({x})) = {len(exp)}', True, 'count'))
+        elif sres['variety'] == 'union':
+            # any operator on a union-typed node is rejected statically (known finding): one canary expression
+            bi, cv, k = exp[0]
+            lit = _literal_for(bi, cv)
+            if lit is not None and cv != 'NaN':
+                exprs.append((f'{x} eq {lit}', True, 'value-eq'))
         elif len(exp) == 1:
             bi, cv, k = exp[0]
             lit = _literal_for(bi, cv)
@@ -625,13 +659,15 @@ def _judge_node(ev, b, spec, schema, r, pidx, xsd) -> list[Disc]:
                 if fam == 'string' or bi in G.STRING_FAMILY + G.NAME_FAMILY + ('language', 'NMTOKEN'):
                     exprs.append((f'string-length({x}) = {len(cv)}', True, 'string-length'))
         if exprs:
-            k = exp[0][2]
-            _run_boolean_batch(ev, b, exprs, pidx, discs, 'arith', f'{k}/{sres["variety"]}', where)
+            k = exp[0][2] + ':' + G.builtin_primitive(exp[0][0])
+            _run_boolean_batch(ev, b, exprs, pidx, discs, 'arith', union_slot(sres, exp), k, where)
     return discs
 
 
-def _run_boolean_batch(ev, b, exprs, pidx, discs, check, tc, where):
-    """evaluate `(e1, e2, ...)` in one go; on an exception evaluate one by one to attribute it"""
+def _run_boolean_batch(ev, b, exprs, pidx, discs, check, container, tc, where):
+    """evaluate `(e1, e2, ...)` in one go; on an exception evaluate one by one to attribute it.
+
+    bucket = C20/<check>/<container or root-cause class>/<failure kind>/<item type class>/<test tag>"""
     batch = '(' + ', '.join(f'({e})' for e, _, _ in exprs) + ')'
     try:
         got = ev.results(b.tree, batch, pidx, True)
@@ -648,10 +684,16 @@ def _run_boolean_batch(ev, b, exprs, pidx, discs, check, tc, where):
             except Exception as ex:
                 got.append(ex)
     for (e, want, tag), g in zip(exprs, got):
+        slot = container
+        if '@' in tag:       # root-cause class of the tested type overrides the container slot
+            head, _, rest = tag.partition('@')
+            cls, sep, tail = rest.partition('/')
+            slot, tag = cls, head + sep + tail
         if isinstance(g, BaseException):
-            discs.append(Disc(esc_bucket(check, g) + f'/{tag}/{tc}', want, repr(g), f'{e} :: {where}'))
+            discs.append(Disc(esc_bucket(f'{check}/{slot}', g) + f'/{tc}/{tag}', want, repr(g), f'{e} :: {where}'))
         elif g is not want:
-            discs.append(Disc(f'C20/{check}/{tag}/{tc}/expected-{str(want).lower()}', want, repr(g), f'{e} :: {where}'))
+            discs.append(Disc(f'C20/{check}/{slot}/expected-{str(want).lower()}/{tc}/{tag}', want, repr(g),
+                              f'{e} :: {where}'))
 
 
 def schema_classes(spec) -> list[str]:
@@ -731,15 +773,18 @@ def judge_select(case, rec: Recorder | None = None) -> list[Disc]:
             except Exception as e:
                 eb = e
             vp = 'value-pred' if 'value-pred' in feats else 'no-value-pred'
+            # class of the known defect "a leading wildcard step skips the root element of a document-less tree"
+            ctx = 'elem-root-leading-wildcard' if not case['tree'].endswith('-doc') and \
+                path.startswith(('//*', '/*')) else 'general'
             pname = parser_classes()[pidx][0]
             where = f'path={path} parser={pname} tree={case["tree"]} instance#{ii}'
             if ra is None and rb is None:
                 if err_code(ea) != err_code(eb):
-                    discs.append(Disc(f'C20/select/different-error/{vp}', repr(eb), repr(ea), where))
+                    discs.append(Disc(f'C20/select/{ctx}/different-error/{vp}', repr(eb), repr(ea), where))
             elif ra is None:
-                discs.append(Disc(esc_bucket('select', ea) + f'/{vp}', rb, repr(ea), where))
+                discs.append(Disc(esc_bucket(f'select/{ctx}', ea) + f'/{vp}', rb, repr(ea), where))
             elif rb is None:
-                discs.append(Disc(f'C20/select/error-only-without-schema/{vp}/{err_code(eb)}', repr(eb), ra, where))
+                discs.append(Disc(f'C20/select/{ctx}/error-only-without-schema/{vp}/{err_code(eb)}', repr(eb), ra, where))
             elif ra != rb:
                 sa, sb = set(ra), set(rb)
                 if sa == sb:
@@ -749,7 +794,7 @@ def judge_select(case, rec: Recorder | None = None) -> list[Disc]:
                     kind = 'extra' if extra and not missing else 'missing' if missing and not extra else 'both'
                     diff = (extra + missing)
                     kind += '/' + _kind_of_addr(diff[0])
-                discs.append(Disc(f'C20/select/{kind}/{vp}', rb, ra, where))
+                discs.append(Disc(f'C20/select/{ctx}/{kind}/{vp}', rb, ra, where))
             if rec is not None:
                 classes = ['path'] + ['path:' + f for f in feats]
                 if 'attr-step' in feats or 'attr-pred' in feats:
@@ -781,7 +826,11 @@ def judge_reapply(case, rec: Recorder | None = None) -> list[Disc]:
         if not schema.is_valid(b.tree, namespaces=ns):
             continue
         pidx = ii % 3
-        typed = [r for r in b.records if G.simple_of(r['res']) is not None and not r['nil']]
+        # nodes with a non-empty typed value of a non-union type (unions and empty values have their own buckets
+        # in the 'nodes' sub-check and would only abort the probe expression here)
+        typed = [r for r in b.records if G.simple_of(r['res']) is not None and not r['nil'] and
+                 (G.simple_of(r['res'])['variety'] == 'atomic' or
+                  (G.simple_of(r['res'])['variety'] == 'list' and r['lexical'].split()))]
         probe = '(' + ', '.join(['0'] + [f"'|', data({r['xpath']})" for r in typed]) + ')'
         all_nodes = '(//* | //@*)'
         where = f'tree={case["tree"]} instance#{ii} parser={parser_classes()[pidx][0]}'
@@ -827,9 +876,11 @@ def judge_reapply(case, rec: Recorder | None = None) -> list[Disc]:
                                   where + f' differs at item {i}'))
         for tag, got, want in (('set-after-use', n1, fresh_nodes), ('set-again', n3, fresh_nodes),
                                ('first-use', n0, plain_nodes), ('removed', n2, plain_nodes)):
-            if got != want:
+            # compared as sets: document order between a defaulted attribute and the children is not judged here
+            if sorted(got, key=repr) != sorted(want, key=repr):
                 d = sorted(set(got) ^ set(want), key=repr)
-                discs.append(Disc(f'C20/reapply/nodes/{tag}/{_kind_of_addr(d[0]) if d else "order"}', want, got, where))
+                discs.append(Disc(f'C20/reapply/nodes/{tag}/{_kind_of_addr(d[0]) if d else "duplicates"}',
+                                  want, got, where))
         if rec is not None:
             rec.case([h64(spec), h64(inst), 'reapply'], nontrivial=bool(typed) and
                      any(not isinstance(v, UntypedAtomic) for v in fresh if v != '|' and v != 0),
@@ -878,7 +929,7 @@ def selftest():
              'fixed': None}]}}
     r = G.resolve(spec, 'T2')
     assert r['variety'] == 'sc' and r['content']['builtin'] == 'int' and r['content']['facet'] == ['range', 0, 10]
-    assert r['content']['chain'][:3] == ['T1', 'T0', 'xs:int'] and r['chain'] == ['T2']
+    assert r['content']['chain'][:3] == ['T1', 'T0', 'xs:int'] and r['chain'][:3] == ['T2', 'T1', 'T0']
     schema = compile_schema(spec)
     assert not isinstance(schema, Exception), schema
     inst = {'p': [], 'text': None, 'attrs': [], 'nil': False, 'xsi': None, 'kids': [
